@@ -1923,6 +1923,16 @@ def rand_like(t, dtype=None, device=None):
     return _random('U', t._shape, dtype or t.dtype)
 
 
+def poisson(input, generator=None):
+    """assumed contract of torch.poisson: element-wise Poisson(input) draws, same shape AND dtype as `input`"""
+    r = input.at(tuple(tm.IZERO for _ in input._shape))
+    if r.op == 'const' and r.args[0] == 0:
+        return zeros(*input._shape, dtype=input.dtype)          # Poisson(0) is identically 0
+    t = _random('Pois', input._shape, input.dtype)
+    ctx().event('poisson_rate', t.name, r)
+    return t
+
+
 def randperm(n, **k):
     raise Unsupported('randperm')
 
